@@ -653,14 +653,15 @@ class PlanJoinTablesQuery:
         if not isinstance(column, Identifier):
             return False
 
-        predict_target = item.predictor_info.get('to_predict')
-        if isinstance(predict_target, list) and len(predict_target) > 0:
-            predict_target = predict_target[0]
-        if predict_target is not None:
-            predict_target = predict_target.lower()
+        predict_targets = item.predictor_info.get('to_predict')
+        if predict_targets is None:
+            predict_targets = []
+        elif not isinstance(predict_targets, (list, tuple)):
+            predict_targets = [predict_targets]
+        predict_targets = [str(target).lower() for target in predict_targets]
 
         col_name = column.parts[-1]
-        return col_name.lower() != predict_target
+        return col_name.lower() not in predict_targets
 
     def process_predictor(self, item, query_in):
         if len(self.step_stack) == 0:
